@@ -87,6 +87,16 @@ try:
         bad.append("an item already in the destination was executed again")
 except BaseException as e:
     bad.append(f"jobmap raised {type(e).__name__}: {e}")
+# strict_hash=False relaxes the hash comparison only: a failed run is still not a result
+try:
+    src5 = lib(os.path.join(d, "src5.mlib"), ["z"])
+    dst5 = lib(os.path.join(d, "dst5.mlib"), [])
+    jobmap(drv.task, src5, dst5, cache_dir=os.path.join(d, "cache5"), scratch_dir=os.path.join(d, "scr"), kwargs={"fail": True}, strict_hash=False)
+    with dst5.reading():
+        if "z" in dst5.keys():
+            bad.append("with strict_hash=False the result of a FAILED run (exit code 1, return file left behind) was stored in the destination")
+except BaseException as e:
+    bad.append(f"strict_hash=False scenario raised {type(e).__name__}: {e}")
 # cached outputs: reused only when produced from the same input with exit code 0
 try:
     src3 = lib(os.path.join(d, "src3.mlib"), ["y"])
